@@ -407,10 +407,12 @@ class SubsampledSubarray(Subarray):
     def _select_data(self, data=None, check_mask=True):
         """Select the tie points that correspond to this subarea.
 
-        Integer tie points are returned as floating point numbers, so
-        that the interpolation formulas are not evaluated in integer
-        arithmetic (for which, for instance, the difference of two
-        8-bit tie points may overflow).
+        Integer and single precision tie points are returned as
+        double precision floating point numbers (the data type of
+        the uncompressed array), so that the interpolation formulas
+        are not evaluated in integer arithmetic (for which, for
+        instance, the difference of two 8-bit tie points may
+        overflow) nor in single precision.
 
         .. versionadded:: (cfdm) NEXTVERSION
 
@@ -433,8 +435,8 @@ class SubsampledSubarray(Subarray):
 
         """
         u = super()._select_data(data=data, check_mask=check_mask)
-        if u.dtype.kind in "iu":
-            u = u.astype(float)
+        if u.dtype != self.dtype:
+            u = u.astype(self.dtype)
 
         return u
 
